@@ -24,7 +24,7 @@ REQUIRED_THEOREMS = ['CfVerif.C10.' + n for n in (
     'src_repaired', 'gen_retry_args', 'gen_patterns', 'gen_size_check', 'gen_check_for_answers',
     'retries_until_answered', 'retry_fires', 'retries_at_timeout', 'retries_at_t0_plus_kT', 'no_retry_after_answer',
     'longest_prefix_only', 'nothing_on_closed_link', 'no_cross_session_tx', 'reliable_link_no_retry',
-    'reliable_links_no_timers', 'driver_needs_resending', 'live_no_retry_after_answer_counterexample',
+    'reliable_links_no_timers', 'driver_needs_resending', 'gen_link_read_once', 'live_no_retry_after_answer_counterexample',
     'live_no_cross_session_tx_counterexample', 'live_retries_at_timeout_counterexample')]
 TRUSTED = ['harness/corr/c10.py: the path analysis of send_packet (conditions -> Boolean functions over six atoms), the extraction of '
            'close_link/_link_error_cb/open_link flags, and the correspondence harness',
@@ -351,7 +351,15 @@ def extract(ctx):
 
     # -- _check_for_answers
     chk = X.find(cls, '_check_for_answers')
-    g.strings('checkCompares', X.compares(chk))
+    # the comparison that decides whether a match replaces the longest one so far is translated, not pinned as text
+    better = [n for n in ast.walk(chk) if isinstance(n, ast.Compare) and len(n.ops) == 1 and
+              {_u(n.left), _u(n.comparators[0])} == {'len(match)', 'len(longest_match)'}]
+    X.expect(len(better) == 1, '_check_for_answers: expected one comparison of len(match) with len(longest_match)')
+    ops = {ast.GtE: '≥', ast.Gt: '>', ast.LtE: '≤', ast.Lt: '<', ast.Eq: '=', ast.NotEq: '≠'}
+    X.expect(type(better[0].ops[0]) in ops, '_check_for_answers: comparison %s is not understood' % _u(better[0]))
+    names = {'len(match)': 'm', 'len(longest_match)': 'lm'}
+    g.raw('def checkBetter (m lm : Nat) : Bool := decide (%s %s %s)' % (names[_u(better[0].left)], ops[type(better[0].ops[0])], names[_u(better[0].comparators[0])]))
+    g.strings('checkCompares', [c for c in X.compares(chk) if c != _u(better[0])])
     asg = {_u(n.targets[0]): _u(n.value) for n in ast.walk(chk) if isinstance(n, ast.Assign) and len(n.targets) == 1}
     g.string('checkData', asg.get('data', '?'))
     g.string('checkMatch', asg.get('match', '?'))
@@ -751,8 +759,8 @@ class Script:
 
 
 def rand_pattern(rng):
-    n = rng.choice([1, 1, 2, 2, 3])
-    return tuple(rng.choice(BYTES) for _ in range(n))
+    n = rng.choice([1, 1, 2, 2, 3, 5])
+    return tuple(rng.choice(BYTES if rng.random() < 0.97 else [0, 255, 256, 70000]) for _ in range(n))
 
 
 def rand_reply(rng, sc):
@@ -769,7 +777,7 @@ def rand_reply(rng, sc):
             data[rng.randrange(len(data))] = rng.choice(BYTES + [9])
         elif r < 0.75:
             header = rng.choice(HEADERS)
-        return header, tuple(data)
+        return header, tuple(b & 0xFF for b in data)       # a received packet holds bytes
     return rng.choice(HEADERS), tuple(rng.choice(BYTES + [0]) for _ in range(rng.randrange(0, 4)))
 
 
@@ -890,6 +898,18 @@ def gen_families(rng, thorough):
             s += [('recv', H, d)]
             out.append(('prefix-set', s))
     return out
+
+
+def gen_exhaustive(depth):
+    """EVERY sequence of `depth` steps over a 15-step alphabet after two prefix-sharing requests were sent"""
+    import itertools
+    H = HEADERS[0]
+    alphabet = [('adv', 200), ('adv', 800), ('expire', 0), ('expire', 1), ('expire', 2), ('run', 0), ('run', 1), ('run', 2),
+                ('recv', H, (1, 9)), ('recv', H, (1, 2, 9)), ('close', []), ('open', 1), ('lerr',),
+                ('send', 3, H, 1, (1,), 200, False), ('setnr', 0)]
+    prefix = [('open', 1), ('send', 1, H, 1, (1,), 200, False), ('send', 2, H, 2, (1, 2), 1000, True)]
+    for seq in itertools.product(alphabet, repeat=depth):
+        yield 'exhaustive', prefix + list(seq)
 
 
 def run_script(ops, cfg='src'):
@@ -1025,7 +1045,10 @@ RULE = ('cases = scripts of send / reply / timer-expiry / timer-callback / time 
         'link-error / open / needs_resending-change steps run on the real Crazyflie object (recording fake link, manually fired '
         'Timer) and on the Lean model; systematic families enumerate EVERY interleaving of the timer thread\'s steps with a reply, a '
         'close+reopen, a link error+reopen, a re-registration of the pattern, for needs_resending on/off and both timeouts, and all '
-        'non-empty subsets of five prefix-sharing patterns x nine replies; random scripts follow the real timer states; '
+        'non-empty subsets of five prefix-sharing patterns x nine replies; EVERY sequence of 3 (thorough: 4) steps over a 15-step '
+        'alphabet after two prefix-sharing requests; random scripts follow the real timer states; real dispatcher and Timer threads '
+        'under the virtual-time scheduler (depth-first over the schedules with <= 2 preemptions) must produce transmission logs the '
+        'model produces for some ordering; '
         'non-trivial = distinct script that transmits at least once')
 
 
@@ -1036,6 +1059,8 @@ def correspond(ctx):
     cfg = os.environ.get('C10_CFG', 'src')      # development only: 'live' compares the unrepaired code with liveCfg
     try:
         for name, ops in gen_families(rng, thorough):
+            scripts.append((name, run_script(ops, cfg)))
+        for name, ops in gen_exhaustive(4 if thorough else 3):
             scripts.append((name, run_script(ops, cfg)))
         for k in range(12000 if thorough else 1500):
             scripts.append(('random', gen_random(rng, rng.choice([6, 12, 20, 40, 80] if thorough else [6, 12, 20, 40]), cfg)))
@@ -1212,6 +1237,7 @@ def search(ctx):
     try:
         scripts = [('corpus:' + name, lambda ops=ops: run_script(ops)) for name, ops in load_corpus()]
         scripts += [(name, lambda ops=ops: run_script(ops)) for name, ops in gen_families(rng, ctx.tier == 'thorough')]
+        scripts += [(name, lambda ops=ops: run_script(ops)) for name, ops in gen_exhaustive(4 if ctx.tier == 'thorough' else 3)]
         scripts += [('random', lambda: gen_random(rng, rng.choice([6, 12, 20, 40]))) for _ in range(6000 if ctx.tier == 'thorough' else 1200)]
         for name, thunk in scripts:
             sc = thunk()
